@@ -44,8 +44,12 @@ CHECKS = [
      "C02_member, C02_order (metric(lower) <= metric(higher): needs the method reversal), C02_between, C02_convex, "
      "C02_monotone. Tied to /repo by a differential run of all threshold_at_* (+aliases, scalar/array) and by evaluating "
      "the Lean spec predicates on the implementation's own matrices at and a few ulp either side of its thresholds.",
-     BASE_NOTE + "np.nextafter is an oracle; float rounding of the interpolation is outside the proof (the property's "
-     "'few ulp' allowance is applied when the spec is evaluated on the implementation).",
+     BASE_NOTE + "np.nextafter is an oracle; float rounding of the whole 'linear' path (easy-sample rescaling, 1-r "
+     "normalisations, shift, index target, weight, la*a+(1-la)*b) is bounded by theorems under the standard model of "
+     "floating-point arithmetic |fl x - x| <= u|x| (SA/Theorems/FloatBounds.lean: thresholdAt_fl_error, thresholdAt_fl_error_lip, "
+     "threshold_fl_bracket = the property's 'few ulp' clause); that IEEE doubles satisfy the model with u = 2^-53 (no "
+     "underflow/overflow) is assumed; the driver evaluates the bound (op flbound) and the run reports DISAGREE float-bound above "
+     "4 x the bound (observed maximum on the pinned code: 0.54 x).",
      "Lean 4 proof about a hand-written model + differential correspondence check", "DESIGN.md §5 C02"),
  chk("C04",
      "Lean theorems C04_counts / C04_complements / C04_range / C04_nan / C04_definitions prove for ALL rational 2x2 "
@@ -222,9 +226,10 @@ CHECKS = [
      "(scalar/array targets, int/dyadic/float curves with duplicates, exact touches, plateaus) and Scores.threshold_at_metric "
      "(name / alias / callable, points None / int / array, error branches), comparing number and position of solutions with "
      "the model and evaluating the Lean predicates on the implementation's own output.",
-     BASE_NOTE + "np.nonzero/np.argmin/np.linspace/np.sort by documented meaning; that float rounding of (1-la)*x[j]+la*x[j+1] "
-     "does not move a point onto the next segment's start is observed, not proved; a user callable is one of the six rate "
-     "metrics wrapped in a lambda.",
+     BASE_NOTE + "np.nonzero/np.argmin/np.linspace/np.sort by documented meaning; float rounding of (1-la)*x[j]+la*x[j+1] is "
+     "bounded by segPoint_fl_error under the standard model of floating-point arithmetic (plEps, evaluated by driver op plbound; "
+     "the run reports DISAGREE float-bound above 4 x the bound, observed maximum 0.74 x); that it does not move a point onto the "
+     "next segment's start is observed, not proved; a user callable is one of the six rate metrics wrapped in a lambda.",
      "Lean 4 proof about a hand-written model + differential correspondence check", "DESIGN.md §5 C17"),
  chk("C14",
      "Lean model (SA/Model/BootMetric.lean, abstract over the sample type): bootstrapMetric sampler metric nb = row j is "
